@@ -47,6 +47,10 @@ type jLifeDevice struct {
 
 type jLifeScenario struct {
 	Devices []jLifeDevice `json:"devices"`
+	// ShareCfg: every device of the scenario is built from ONE config.DeviceConfig value (the configuration of device 0), the way the
+	// manager hands the entry FindConfig returned - e.g. the default gamepad configuration - to every device that resolves to it: the
+	// copies share their maps, and no device's mutex protects them
+	ShareCfg bool `json:"share_cfg"`
 }
 
 type jLifeDevResult struct {
@@ -84,7 +88,7 @@ func freePort() int {
 	return p
 }
 
-func runLifeDevice(c jLifeDevice) (res jLifeDevResult) {
+func runLifeDevice(c jLifeDevice, shared *config.DeviceConfig) (res jLifeDevResult) {
 	res = jLifeDevResult{Steps: []jStep{}, Cleanup: [][]int{}, PanicAt: -1, SrvErrs: []string{}}
 	var srv *fakeORGB
 	port := 0
@@ -100,13 +104,17 @@ func runLifeDevice(c jLifeDevice) (res jLifeDevResult) {
 		defer srv.close()
 		port = srv.port
 	}
-	cfg := buildConfig(c.Cfg)
+	devCfg := config.DeviceConfig{ConfigFile: "verif", ConfigType: "user"}
+	if shared != nil {
+		devCfg = *shared
+	} else {
+		devCfg.Config = buildConfig(c.Cfg)
+	}
 	midiOut := make(chan midi.Event, 16384)
 	midiIn := make(chan midi.Event)
 	sigs := make(chan os.Signal, 64)
 	in := make(chan *input.InputEvent)
-	d := NewDevice(buildLedInputDevice(c.Abs), config.DeviceConfig{ConfigFile: "verif", ConfigType: "user", Config: cfg},
-		midiOut, midiIn, true, port, sigs)
+	d := NewDevice(buildLedInputDevice(c.Abs), devCfg, midiOut, midiIn, true, port, sigs)
 	done := make(chan string, 1)
 	go func() {
 		defer func() {
@@ -271,11 +279,15 @@ func runLifeScenario(sc jLifeScenario, raceLog string) (res jLifeResult) {
 	t0 := time.Now()
 	res.Devices = make([]jLifeDevResult, len(sc.Devices))
 	var wg sync.WaitGroup
+	var shared *config.DeviceConfig
+	if sc.ShareCfg && len(sc.Devices) > 0 {
+		shared = &config.DeviceConfig{ConfigFile: "verif", ConfigType: "user", Config: buildConfig(sc.Devices[0].Cfg)}
+	}
 	for i := range sc.Devices {
 		wg.Add(1)
 		go func(i int) {
 			defer wg.Done()
-			res.Devices[i] = runLifeDevice(sc.Devices[i])
+			res.Devices[i] = runLifeDevice(sc.Devices[i], shared)
 		}(i)
 	}
 	wg.Wait()
